@@ -46,6 +46,7 @@ def run(rep, tier, rng):
     stages.proof_stage(rep, "C13")
     dev = sfv.build_harness("dev")
     cases, meta = [], []
+    path_fail, path_cuts = [], [0]
     nmodels = 26 if tier == "thorough" else 13
     OPSI = [("it", -1), ("nth", 0)]
     for mi in range(nmodels):
@@ -63,6 +64,18 @@ def run(rep, tier, rng):
             if l % 2 == 0:
                 cases.append(C.read_case(-1, shp[:l], shx, OPSI))
                 meta.append(("trunc_shp_idx", want, ends, l, True))
+        # --- the same truncations as files on disk without a .shx beside them, read through the path-based one-liners
+        # (at the end of the header, at every record boundary, inside records): same answers as from memory
+        if mi < (13 if tier == "thorough" else 6):
+            import pathio
+            cutset = sorted(set([100] + ends[:-1] + [e - 3 for e in ends] + [e + 5 for e in ends[:-1]]))
+            for l in cutset:
+                if 0 < l < len(shp):
+                    pmsg = pathio.check(rep, dev, "c13", "t%d_%d" % (mi, l), shp[:l], None, code,
+                                        "file on disk cut at byte %d (record ends at %r), no index" % (l, ends))
+                    path_cuts[0] += 1
+                    if pmsg and not path_fail:
+                        path_fail.append(pmsg)
         # --- truncation of the .shx
         for l in range(0, len(shx), 1 if tier == "thorough" else 3):
             cases.append(C.read_case(-1, shp, shx[:l], OPSI))
@@ -94,6 +107,12 @@ def run(rep, tier, rng):
                        "error; non-trivial = distinct case" % nmodels)
     impl = stages.correspondence(rep, "read", dev, cases, "read(truncated/faulty/short-reading sources)")
     nfail = 0
+    import pathio
+    pathio.cleanup("c13")
+    rep.cov["truncated_files_read_by_path"] = path_cuts[0]
+    if path_fail:
+        nfail += 1
+        rep.violation({"kind": "oracle", "what": path_fail[0], "case_kind": "path"})
     seen_fault_err = 0
     for c, m, r in zip(cases, meta, impl):
         kind, want, ends, l, with_idx = m[:5]
